@@ -72,9 +72,10 @@ Lemma gframe_refl R f : gframe R f f.
 Proof. constructor; auto; exists []; auto. Qed.
 Lemma gframe_weaken (R R' : nat -> Prop) f f' : (forall l, R l -> R' l) -> gframe R f f' -> gframe R' f f'.
 Proof.
-  intros HR [(Ji & E1 & F1) (Jw & E2 & F2) E3 E4]. constructor; auto.
+  intros HR [(Ji & E1 & F1) (Jw & E2 & F2) E3 E4]. constructor.
   - exists Ji. split; auto. eapply Forall_impl; [|exact F1]. intros a [H1 H2]. split; auto.
   - exists Jw. split; auto. eapply Forall_impl; [|exact F2]. intros a. auto.
+  - exact E3.
   - intros l Hl. apply E4. intros H. apply Hl. auto.
 Qed.
 Lemma gframe_trans R f1 f2 f3 : gframe R f1 f2 -> gframe R f2 f3 -> gframe R f1 f3.
@@ -118,10 +119,10 @@ Proof.
 Qed.
 Lemma junk_ne_if (R : nat -> Prop) L J : Forall (fun e => R (ic_current e) /\ ic_passed e = true) J ->
   ~ R L -> Forall (fun x => ic_current x <> L) J.
-Proof. intros H HL. eapply Forall_impl; [|exact H]. intros a [H1 _] ->. contradiction. Qed.
+Proof. intros H HL. eapply Forall_impl; [|exact H]. intros a [H1 _] E. rewrite E in H1. contradiction. Qed.
 Lemma junk_ne_wh (R : nat -> Prop) L J : Forall (fun e => R (lm_end e)) J -> ~ R L ->
   Forall (fun x => lm_end x <> L) J.
-Proof. intros H HL. eapply Forall_impl; [|exact H]. intros a H1 ->. contradiction. Qed.
+Proof. intros H HL. eapply Forall_impl; [|exact H]. intros a H1 E. cbv beta in H1. rewrite E in H1. contradiction. Qed.
 
 (* ---- meta info of constructs placed in a C05 program --------------------------------------------- *)
 Section Meta.
@@ -185,7 +186,7 @@ Proof.
   intros (pre & post & E & L) Hb He.
   assert (EP : fcmds P = (fcmds pre ++ [Some sp]) ++ fcmds (gb b) ++ Some e :: fcmds post).
   { rewrite E. unfold fcmds. rewrite !map_app. cbn [map fi_cmd fkw]. rewrite !map_app. cbn [map fi_cmd bkw].
-    rewrite <- !app_assoc. cbn [app]. reflexivity. }
+    rewrite <- !app_assoc. cbn [app]. rewrite <- !app_assoc. cbn [app]. reflexivity. }
   rewrite EP.
   replace (S p) with (length (fcmds pre ++ [Some sp])) by (rewrite app_length, fcmds_length; cbn; lia).
   eapply find_fn_end; eauto.
